@@ -146,6 +146,8 @@ def matrix_jobs(prefix, tier, audit, group):
     jobs = []
     for (op, slots, ex, l0, g0) in T:
         heavy = (op, slots) in HEAVY or (op, slots, l0) in HEAVY
+        if audit and 'SYM_FRAME' in ex:
+            continue     # hostile frame bases are C13's subject; the audit variant of these runs out of memory
         if heavy and not ex.get('IMM_FIX0') is not None and tier == 'quick' and not any(k.startswith('FIX_I') for k in ex):
             if not (op == 'OP_STORE_LOCAL' and ex):   # the constant-slot store_local variants are cheap
                 continue
